@@ -311,6 +311,12 @@ func buildAlphabet() {
 	wrap("RID", 0, "a", []byte("a"), rid)
 	wrap("RID", 1, "b32", b32, rid)
 	wrap("RID", 0, "zero", z32, rid)
+	// lengths around the nominal 32 bytes: a writer that pads or truncates to the nominal size would merge these
+	wrap("RID", 0, "b32[:31]", b32[:31], rid)
+	wrap("RID", 0, "b32[:31]|00", append(append([]byte{}, b32[:31]...), 0), rid)
+	wrap("RID", 0, "b32|07", append(append([]byte{}, b32...), 7), rid)
+	wrap("RID", 0, "z32[:31]", z32[:31], rid)
+	wrap("RID", 0, "empty", []byte{}, rid)
 	com := func(b []byte) interface{} { return hash.Commitment(b) }
 	wrap("Commitment", 0, "nil", nil, com)
 	wrap("Commitment", 2, "a", []byte("a"), com)
@@ -426,6 +432,10 @@ func buildAlphabet() {
 		return fmt.Sprintf("{ECDSA=%d*G,ElGamal=%d*G,Paillier=%s,Pedersen=(%s,2,3)}", x, y, n, n)
 	}
 	add(0, "Public", "nil", "nil", func() interface{} { return (*cmpconfig.Public)(nil) })
+	// a writer that writes part of itself (two points) and then fails: refused, and nothing of it may stay behind
+	add(0, "Public", "1,2,no-paillier", "refused:{ECDSA=1*G,ElGamal=2*G,Paillier=nil}", func() interface{} {
+		return &cmpconfig.Public{ECDSA: point(1), ElGamal: point(2), Pedersen: ped(nA, 2, 3)}
+	})
 	add(2, "Public", "1,2,NA", pubID(1, 2, nA), func() interface{} { return pub(1, 2, nA) })
 	add(0, "Public", "2,1,NA", pubID(2, 1, nA), func() interface{} { return pub(2, 1, nA) })
 	add(0, "Public", "1,2,NB", pubID(1, 2, nB), func() interface{} { return pub(1, 2, nB) })
